@@ -172,6 +172,58 @@ class Fn:
             return ds[0]
         return None
 
+    def resolve_fields(self, place, depth=0):
+        """operands that the field path `place` = [local, proj..] denotes when `local` is built by aggregates (tuple / struct / enum
+        variant construction), seen through plain moves: `(x@Ok.0).1` with `x = Ok((a, b))` -> [b].  Every whole-local definition of
+        the base must be a move or an aggregate of the selected variant (definitions of another variant cannot be what the downcast
+        reads); otherwise -> [].  Used to follow values through the tuple / Result that a helper returns."""
+        if depth > 8 or len(place) < 2:
+            return []
+        base, projs = place[0], list(place[1:])
+        if any(isinstance(x, str) and (x == "*" or x.startswith("[")) for x in projs[:1]):
+            return []
+        out = []
+        for node, kind, pl in self.defs().get(base, []):
+            if kind != "assign" or len(pl["lhs"]) != 1:
+                if kind == "assign":
+                    continue       # a partial write: not modelled
+                return []
+            rv = pl["rv"]
+            if rv["r"] == "use":
+                q = op_place(rv["o"])
+                if q is None:
+                    continue
+                out += self.resolve_fields(q + projs, depth + 1) or []
+                continue
+            if rv["r"] != "agg":
+                return []
+            pr = list(projs)
+            var = None
+            if pr and pr[0].startswith("@"):
+                var = pr.pop(0)[1:]
+                if rv.get("var") is not None and rv.get("var") != var:
+                    continue
+            if not pr or not pr[0].startswith("."):
+                continue
+            f = pr.pop(0)[1:]
+            ops = rv.get("ops", [])
+            idx = None
+            fields = rv.get("fields")
+            if fields and f in fields:
+                idx = fields.index(f)
+            elif f.isdigit() and int(f) < len(ops):
+                idx = int(f)
+            if idx is None or idx >= len(ops):
+                continue
+            o = ops[idx]
+            q = op_place(o)
+            if pr:
+                if q is not None:
+                    out += self.resolve_fields(q + pr, depth + 1) or ([{o_k: q + pr for o_k in ("c",)}] if False else [])
+                continue
+            out.append(o)
+        return out
+
     def _lhs_of(self, d):
         node, kind, p = d
         if kind == "assign":
